@@ -6,7 +6,8 @@ colour-space resource name (/CS0) and the same page texts (character codes); the
 things mean:
 
   dA   F1: /Encoding /WinAnsiEncoding (the shared table itself), Widths 500 600      F2: /Encoding /H   DW 1000   CS0: 3 components
-       F2 alone carries a ToUnicode (CIDs of CODE1, CODE2 -> "T", "U"); F3 is F2 without it
+       dA is written in TWO revisions: revision 1 packs objects 6 and 18 into an object stream (18 there = a copy of 6, with the
+       ToUnicode); revision 2 redefines 18.  F2 alone carries a ToUnicode (CIDs of CODE1, CODE2 -> "T", "U"); F3 is F2 without it
   dB   F1: BaseEncoding WinAnsi + Differences [66 /g1234 65 /Omega] (the array STARTS with a glyph name that has no Unicode
        value: code 66 is removed from the font's table and shows as (cid:66)),  Widths 700 600      F2: /Encoding /V   (vertical) CS0: 1 component
   dC   F1: /WinAnsiEncoding + ToUnicode (66 -> "Y", `/H usecmap`), Widths 500 800    F2: /Encoding /H   DW 400    CS0: not defined
@@ -123,6 +124,14 @@ def objects(d):
 
 def build_doc(d):
     objs = dict(sorted(objects(d).items()))
+    if d == "dA":
+        # two revisions: revision 1 (cross-reference stream) packs the Type0 fonts 6 and 18 into one object stream, and
+        # there object 18 still carries F2's /ToUnicode; revision 2 (classic table) redefines object 18 directly
+        old = dict(objs)
+        old[18] = dict(objs[6])
+        if old[18] == objs[18]:
+            raise MachineryError("C12 pool: the stale and the current object 18 of dA do not differ")
+        return build([Revision(old, form="stream", objstm=[6, 18], root=Ref(1)), Revision({18: objs[18]}, form="table")])[0]
     if d != "dC":
         return build([Revision(objs, form="table", root=Ref(1))])[0]
     id0 = E.det_bytes(16, "c12-id0")
